@@ -30,12 +30,11 @@ Record lens2 := mk_lens2 { lg : kst (F := F) -> arr2 F; ls : arr2 F -> kst (F :=
 Record lens1 := mk_lens1 { lg1 : kst (F := F) -> arr1 F; ls1 : arr1 F -> kst (F := F) -> kst (F := F);
   lgs1 : forall x s, lg1 (ls1 x s) = x; lss1 : forall x y s, ls1 x (ls1 y s) = ls1 x s; lsg1 : forall s, ls1 (lg1 s) s = s }.
 Ltac lens_sg := intros s; destruct s; reflexivity.
-(* bring a state expression built from setters to record-literal form *)
-Ltac norm_state :=
-  cbv beta iota delta [set_v_Ainv set_v_Atmp set_v_A set_v_B set_v_Binv set_v_Btmp set_v_M_T set_v_b set_v_a set_v_mu set_v_Lambda set_v_ivar
-    set_v_s_ivar set_v_rv set_l_info set_l_lwork set_l_nrhs set_l_log_det_val set_l_chi2 set_l_dy set_l_var set_l_P set_l_e set_l_om set_l_M0
-    set_l__ll set_l_ll v_Ainv v_Atmp v_A v_B v_Binv v_Btmp v_M_T v_b v_a v_mu v_Lambda v_ivar v_s_ivar v_rv l_info l_lwork l_nrhs
-    l_log_det_val l_chi2 l_dy l_var l_P l_e l_om l_M0 l__ll l_ll].
+(* simplify projections of setter chains and bring setter chains to canonical order with the generated state algebra
+   (rewrite database `kst` of Gen/KernelPyx.v); the 27-field record is never unfolded *)
+Ltac norm_state := autorewrite with kst.
+(* the term-builders tA, tb, tB, tBi ... read only fields that the loops do not write: replace their state argument by the initial state (conversion) *)
+Ltac reframe t s0 := repeat match goal with |- context [t ?S] => tryif constr_eq S s0 then fail else change (t S) with (t s0) end.
 Definition L_Ainv : lens2. Proof. refine (mk_lens2 v_Ainv set_v_Ainv (fun _ _ => eq_refl) (fun _ _ _ => eq_refl) _). lens_sg. Defined.
 Definition L_Atmp : lens2. Proof. refine (mk_lens2 v_Atmp set_v_Atmp (fun _ _ => eq_refl) (fun _ _ _ => eq_refl) _). lens_sg. Defined.
 Definition L_A : lens2. Proof. refine (mk_lens2 v_A set_v_A (fun _ _ => eq_refl) (fun _ _ _ => eq_refl) _). lens_sg. Defined.
@@ -192,7 +191,7 @@ Proof.
   - cbn [for_range]. rewrite !fill_empty2 by (intros a b; rewrite andb_false_r; reflexivity). destruct s; reflexivity.
   - cbn [for_range]. rewrite IH, AA_j_char. cbn [v_Ainv v_Atmp set_v_Ainv set_v_Atmp].
     rewrite Nat.eqb_refl, Nat.ltb_irrefl. cbn [andb].
-    change (tA i K (set_v_Atmp _ (set_v_Ainv _ s))) with (tA i K s).
+    reframe (tA i K) s.
     rewrite (upd2_fill_row (v_Ainv s) i K (fun b => sum_from (v_Ainv s i b) nt (tA i b s))).
     rewrite (upd2_fill_row (v_Atmp s) i K (fun b => sum_from (v_Ainv s i b) nt (tA i b s))).
     reflexivity.
@@ -209,46 +208,56 @@ Definition AA_closed (s0 : st) (K : nat) : st :=
                             else if Nat.ltb a nl && Nat.ltb b nl then fz fo 0 else v_Ainv s0 a b)
        (set_l_lwork NL (set_l_info 0%Z s0))).
 
+Lemma AA_i_on_closed s0 K : (K < nl)%nat -> AA_i K (AA_closed s0 K) = AA_closed s0 (S K).
+Proof.
+  intros HK. unfold AA_i. cbv zeta. rewrite AA_j_sweep. unfold AA_closed. norm_state.
+  assert (HV : forall b, (b < nl)%nat ->
+     sum_from (upd2 (fun a0 b0 => if Nat.ltb a0 K && Nat.ltb b0 nl then Ainv_val s0 a0 b0
+                                  else if Nat.ltb a0 nl && Nat.ltb b0 nl then fz fo 0 else v_Ainv s0 a0 b0) K K
+                    (fdiv fo (fz fo 1) (v_Lambda s0 K)) K b) nt (tA K b s0) = Ainv_val s0 K b).
+  { intros b Hb. unfold Ainv_val, upd2. rewrite Nat.eqb_refl, Nat.ltb_irrefl. cbn [andb].
+    replace (K <? nl)%nat with true by (symmetry; apply Nat.ltb_lt; lia).
+    replace (b <? nl)%nat with true by (symmetry; apply Nat.ltb_lt; lia). cbn [andb].
+    rewrite (Nat.eqb_sym b K). destruct (Nat.eqb K b); reflexivity. }
+  f_equal; [|f_equal].
+  - (* Ainv *)
+    extensionality a. extensionality b. norm_state.
+    reframe (tA K b) s0.
+    destruct (Nat.eqb_spec a K) as [Ha|Ha]; cbn [andb].
+    + subst a. replace (K <? S K)%nat with true by (symmetry; apply Nat.ltb_lt; lia). cbn [andb].
+      destruct (Nat.ltb_spec b nl) as [Hb|Hb]; [apply HV; exact Hb|].
+      unfold upd2. rewrite Nat.eqb_refl, Nat.ltb_irrefl. cbn [andb].
+      destruct (Nat.eqb_spec b K) as [Hbk|Hbk]; [lia|]. replace (b <? nl)%nat with false by (symmetry; apply Nat.ltb_ge; lia). reflexivity.
+    + unfold upd2. replace (Nat.eqb a K) with false by (symmetry; apply Nat.eqb_neq; exact Ha). cbn [andb].
+      destruct (Nat.ltb_spec a K) as [H1|H1]; destruct (Nat.ltb_spec a (S K)) as [H2|H2]; try reflexivity; lia.
+  - (* Atmp *)
+    extensionality a. extensionality b. norm_state.
+    reframe (tA K b) s0.
+    destruct (Nat.eqb_spec a K) as [Ha|Ha]; cbn [andb].
+    + subst a. replace (K <? S K)%nat with true by (symmetry; apply Nat.ltb_lt; lia). cbn [andb].
+      destruct (Nat.ltb_spec b nl) as [Hb|Hb]; [apply HV; exact Hb|]. rewrite Nat.ltb_irrefl. reflexivity.
+    + destruct (Nat.ltb_spec a K) as [H1|H1]; destruct (Nat.ltb_spec a (S K)) as [H2|H2]; try reflexivity; lia.
+Qed.
+
 Lemma AA_main_char s0 K : (K <= nl)%nat ->
   for_range K AA_i (AA_zero (set_l_lwork NL (set_l_info 0%Z s0))) = AA_closed s0 K.
 Proof.
   induction K as [|K IH]; intros HK.
-  - cbn [for_range]. rewrite AA_zero_char. unfold AA_closed. cbn [v_Ainv v_Atmp set_l_lwork set_l_info set_v_Ainv].
+  - cbn [for_range]. rewrite AA_zero_char. unfold AA_closed. norm_state.
     rewrite (fill_empty2 (v_Atmp s0)) by (intros a b; reflexivity). destruct s0; reflexivity.
-  - cbn [for_range]. rewrite IH by lia. unfold AA_i. cbv zeta. rewrite AA_j_sweep.
-    assert (HV : forall b, (b < nl)%nat ->
-              sum_from (v_Ainv (set_v_Ainv (upd2 (v_Ainv (AA_closed s0 K)) K K (fdiv fo (fz fo 1) (v_Lambda (AA_closed s0 K) K))) (AA_closed s0 K)) K b) nt
-                       (tA K b (set_v_Ainv (upd2 (v_Ainv (AA_closed s0 K)) K K (fdiv fo (fz fo 1) (v_Lambda (AA_closed s0 K) K))) (AA_closed s0 K)))
-              = Ainv_val s0 K b).
-    { intros b Hb. unfold Ainv_val, AA_closed. cbn [v_Ainv v_Lambda set_v_Ainv set_v_Atmp set_l_lwork set_l_info].
-      unfold upd2. rewrite Nat.eqb_refl, Nat.ltb_irrefl. cbn [andb].
-      replace (K <? nl)%nat with true by (symmetry; apply Nat.ltb_lt; lia).
-      replace (b <? nl)%nat with true by (symmetry; apply Nat.ltb_lt; lia). cbn [andb].
-      rewrite (Nat.eqb_sym b K). destruct (Nat.eqb K b); reflexivity. }
-    unfold AA_closed at 3. 
-    set (V := fun b => sum_from (v_Ainv (set_v_Ainv (upd2 (v_Ainv (AA_closed s0 K)) K K (fdiv fo (fz fo 1) (v_Lambda (AA_closed s0 K) K))) (AA_closed s0 K)) K b) nt
-                       (tA K b (set_v_Ainv (upd2 (v_Ainv (AA_closed s0 K)) K K (fdiv fo (fz fo 1) (v_Lambda (AA_closed s0 K) K))) (AA_closed s0 K)))) in *.
-    unfold AA_closed. norm_state. f_equal.
-    + (* Ainv *)
-      extensionality a. extensionality b. unfold upd2.
-      destruct (Nat.eqb_spec a K) as [Ha|Ha]; cbn [andb].
-      * subst a. replace (K <? S K)%nat with true by (symmetry; apply Nat.ltb_lt; lia). rewrite Nat.ltb_irrefl. cbn [andb].
-        destruct (Nat.ltb_spec b nl) as [Hb|Hb]; [apply HV; exact Hb|].
-        destruct (Nat.eqb_spec b K) as [Hbk|Hbk]; [lia|]. reflexivity.
-      * destruct (Nat.ltb_spec a K) as [H1|H1]; destruct (Nat.ltb_spec a (S K)) as [H2|H2]; try reflexivity; lia.
-    + (* Atmp *)
-      extensionality a. extensionality b.
-      destruct (Nat.eqb_spec a K) as [Ha|Ha]; cbn [andb].
-      * subst a. replace (K <? S K)%nat with true by (symmetry; apply Nat.ltb_lt; lia). rewrite Nat.ltb_irrefl. cbn [andb].
-        destruct (Nat.ltb_spec b nl) as [Hb|Hb]; [apply HV; exact Hb|reflexivity].
-      * destruct (Nat.ltb_spec a K) as [H1|H1]; destruct (Nat.ltb_spec a (S K)) as [H2|H2]; try reflexivity; lia.
+  - cbn [for_range]. rewrite IH by lia. apply AA_i_on_closed. lia.
 Qed.
 
 (* copy of the inverse into A *)
+Lemma AA_copy_j_char i s : AA_copy_j i s = set_v_A (fun a b => if Nat.eqb a i && Nat.ltb b nl then v_Atmp s a b else v_A s a b) s.
+Proof.
+  unfold AA_copy_j. rewrite (row_assign2 L_A i nl (fun b s => v_Atmp s i b)) by reflexivity. cbn [ls lg L_A]. f_equal.
+  extensionality a. extensionality b. destruct (Nat.eqb_spec a i) as [Ha|Ha]; [subst a|]; reflexivity.
+Qed.
 Lemma AA_copy_char s : AA_copy s = set_v_A (fun a b => if Nat.ltb a nl && Nat.ltb b nl then v_Atmp s a b else v_A s a b) s.
 Proof.
   unfold AA_copy. apply (rows_assign2 L_A nl nl AA_copy_j (fun a b s => v_Atmp s a b)); [|reflexivity].
-  intros i s1. unfold AA_copy_j. apply (row_assign2 L_A i nl (fun b s => v_Atmp s i b)). reflexivity.
+  intros i s1. apply AA_copy_j_char.
 Qed.
 
 (* ---- make_AAinv, all sizes, any initial state ---- *)
@@ -263,5 +272,142 @@ Proof.
   rewrite AAinv_mirror. unfold make_AAinv_mirror, AA_main. rewrite AA_main_char by lia. cbv zeta.
   destruct (o_inv orc nl (v_Atmp (AA_closed s0 nl))) as [Y|]; [|reflexivity].
   rewrite AA_copy_char. reflexivity.
+Qed.
+
+(* ================= make_bBBinv ================= *)
+Definition tb (n : nat) (s : st) (i : nat) : F := fmul fo (v_M_T s i n) (v_mu s i).
+Definition tB (n m : nat) (s : st) (i : nat) : F := fmul fo (fmul fo (v_M_T s i n) (v_Lambda s i)) (v_M_T s i m).
+Definition tBi (n m : nat) (s : st) (i j : nat) : F :=
+  fmul fo (fmul fo (fmul fo (fmul fo (v_s_ivar s n) (v_M_T s i n)) (v_A s i j)) (v_M_T s j m)) (v_s_ivar s m).
+
+Definition BB1_i (n : nat) (s : st) : st := for_range nl (fun i s => set_v_b (upd1 (v_b s) n (fadd fo (v_b s n) (tb n s i))) s) s.
+Definition BB1_m (n : nat) (s : st) : st := for_range nt (fun m s => set_v_B (upd2 (v_B s) n m (fz fo 0)) s) s.
+Definition BB1_n (n : nat) (s : st) : st := let s := set_v_b (upd1 (v_b s) n (fz fo 0)) s in let s := BB1_i n s in BB1_m n s.
+Definition BB1 (s : st) : st := for_range nt BB1_n s.
+
+Definition BB2_i (n m : nat) (s : st) : st := for_range nl (fun i s => set_v_B (upd2 (v_B s) n m (fadd fo (v_B s n m) (tB n m s i))) s) s.
+Definition BB2_m (n m : nat) (s : st) : st :=
+  let s := set_v_Binv (upd2 (v_Binv s) n m (fz fo 0)) s in let s := BB2_i n m s in set_v_Btmp (upd2 (v_Btmp s) n m (v_B s n m)) s.
+Definition BB2_n (n : nat) (s : st) : st := let s := set_v_B (upd2 (v_B s) n n (fdiv fo (fz fo 1) (v_s_ivar s n))) s in for_range nt (BB2_m n) s.
+Definition BB2 (s : st) : st := for_range nt BB2_n s.
+
+Definition BB3_j (n i m : nat) (s : st) : st :=
+  for_range nl (fun j s => set_v_Binv (upd2 (v_Binv s) n m (fsub fo (v_Binv s n m) (tBi n m s i j))) s) s.
+Definition BB3_m (n i : nat) (s : st) : st := for_range nt (BB3_j n i) s.
+Definition BB3_i (n : nat) (s : st) : st := for_range nl (BB3_m n) s.
+Definition BB3_n (n : nat) (s : st) : st := let s := set_v_Binv (upd2 (v_Binv s) n n (v_s_ivar s n)) s in BB3_i n s.
+Definition BB3 (s : st) : st := for_range nt BB3_n s.
+
+Definition BB4 (s : st) : st :=
+  for_range nt (fun i s => set_l_log_det_val (fadd fo (l_log_det_val s) (flog fo (fmul fo (fmul fo (fz fo 2) (fpi fo)) (fabs fo (v_Btmp s i i))))) s) s.
+
+Definition make_bBBinv_mirror (s : st) : st * F :=
+  let s := BB3 (BB2 (BB1 (set_l_info 0%Z s))) in
+  match o_lu orc nt (v_Btmp s) with
+  | None => (s, finf fo)
+  | Some Y => let s := BB4 (set_l_log_det_val (fz fo 0) (set_v_Btmp Y s)) in (s, l_log_det_val s)
+  end.
+Lemma bBBinv_mirror s : make_bBBinv fo orc NT NL s = make_bBBinv_mirror s.
+Proof. unfold make_bBBinv, make_bBBinv_mirror. rewrite !Nat2Z.id. reflexivity. Qed.
+
+Definition b_val (s : st) (n : nat) : F := sum_from (fz fo 0) nl (tb n s).
+Definition B_val (s : st) (n m : nat) : F := sum_from (if Nat.eqb n m then fdiv fo (fz fo 1) (v_s_ivar s n) else fz fo 0) nl (tB n m s).
+Definition Binv_val (s : st) (n m : nat) : F :=
+  for_range nl (fun i acc => dif_from acc nl (tBi n m s i)) (if Nat.eqb n m then v_s_ivar s n else fz fo 0).
+Definition logdet_val (Y : arr2 F) : F := sum_from (fz fo 0) nt (fun i => flog fo (fmul fo (fmul fo (fz fo 2) (fpi fo)) (fabs fo (Y i i)))).
+
+(* --- first loop: b and the zeroing of B --- *)
+Definition BB1_closed (s0 : st) (K : nat) : st :=
+  set_v_B (fun a b => if Nat.ltb a K && Nat.ltb b nt then fz fo 0 else v_B s0 a b)
+    (set_v_b (fun a => if Nat.ltb a K then b_val s0 a else v_b s0 a) s0).
+
+Lemma BB1_i_char n s : BB1_i n s = set_v_b (upd1 (v_b s) n (sum_from (v_b s n) nl (tb n s))) s.
+Proof. unfold BB1_i. apply (acc_cell1 L_b (fadd fo) n nl (fun i s => tb n s i)). reflexivity. Qed.
+Lemma BB1_m_char n s : BB1_m n s = set_v_B (fun a b => if Nat.eqb a n && Nat.ltb b nt then fz fo 0 else v_B s a b) s.
+Proof. unfold BB1_m. apply (row_assign2 L_B n nt (fun _ _ => fz fo 0)). reflexivity. Qed.
+
+Lemma BB1_n_on_closed s0 K : BB1_n K (BB1_closed s0 K) = BB1_closed s0 (S K).
+Proof.
+  unfold BB1_n. cbv zeta. rewrite BB1_m_char, BB1_i_char. unfold BB1_closed. norm_state. rewrite upd1_same, upd1_upd1.
+  f_equal; [|f_equal].
+  - extensionality a. extensionality b.
+    destruct (Nat.eqb_spec a K) as [Ha|Ha]; cbn [andb].
+    + subst a. replace (K <? S K)%nat with true by (symmetry; apply Nat.ltb_lt; lia). cbn [andb]. destruct (b <? nt)%nat; [reflexivity|].
+      rewrite Nat.ltb_irrefl. reflexivity.
+    + destruct (Nat.ltb_spec a K) as [H1|H1]; destruct (Nat.ltb_spec a (S K)) as [H2|H2]; try reflexivity; lia.
+  - reframe (tb K) s0. change (sum_from (fz fo 0) nl (tb K s0)) with (b_val s0 K). rewrite (upd1_fill (v_b s0) K (b_val s0)). reflexivity.
+Qed.
+Lemma BB1_char s0 : BB1 s0 = BB1_closed s0 nt.
+Proof.
+  unfold BB1. assert (H : forall K, for_range K BB1_n s0 = BB1_closed s0 K).
+  { induction K as [|K IH]; cbn [for_range].
+    - unfold BB1_closed. rewrite fill_empty2 by (intros a b; reflexivity). destruct s0; reflexivity.
+    - rewrite IH. apply BB1_n_on_closed. }
+  apply H.
+Qed.
+
+(* --- second loop: B = diag(1/w) + M Lambda M^T, its copy Btmp, and the zeroing of Binv --- *)
+Lemma BB2_i_char n m s : BB2_i n m s = set_v_B (upd2 (v_B s) n m (sum_from (v_B s n m) nl (tB n m s))) s.
+Proof. unfold BB2_i. apply (acc_cell2 L_B (fadd fo) n m nl (fun i s => tB n m s i)). reflexivity. Qed.
+Lemma BB2_m_char n m s :
+  BB2_m n m s = set_v_B (upd2 (v_B s) n m (sum_from (v_B s n m) nl (tB n m s)))
+                  (set_v_Binv (upd2 (v_Binv s) n m (fz fo 0))
+                     (set_v_Btmp (upd2 (v_Btmp s) n m (sum_from (v_B s n m) nl (tB n m s))) s)).
+Proof.
+  unfold BB2_m. cbv zeta. rewrite BB2_i_char. norm_state. rewrite upd2_same.
+  reframe (tB n m) s. reflexivity.
+Qed.
+Lemma BB2_m_sweep n K s :
+  for_range K (BB2_m n) s
+  = set_v_B (fun a b => if Nat.eqb a n && Nat.ltb b K then sum_from (v_B s n b) nl (tB n b s) else v_B s a b)
+      (set_v_Binv (fun a b => if Nat.eqb a n && Nat.ltb b K then fz fo 0 else v_Binv s a b)
+         (set_v_Btmp (fun a b => if Nat.eqb a n && Nat.ltb b K then sum_from (v_B s n b) nl (tB n b s) else v_Btmp s a b) s)).
+Proof.
+  induction K as [|K IH].
+  - cbn [for_range]. rewrite !fill_empty2 by (intros a b; rewrite andb_false_r; reflexivity). destruct s; reflexivity.
+  - cbn [for_range]. rewrite IH, BB2_m_char. norm_state. rewrite Nat.eqb_refl, Nat.ltb_irrefl. cbn [andb].
+    reframe (tB n K) s.
+    rewrite (upd2_fill_row (v_B s) n K (fun b => sum_from (v_B s n b) nl (tB n b s))).
+    rewrite (upd2_fill_row (v_Btmp s) n K (fun b => sum_from (v_B s n b) nl (tB n b s))).
+    rewrite (upd2_fill_row (v_Binv s) n K (fun _ => fz fo 0)). reflexivity.
+Qed.
+
+Definition BB2_closed (s0 : st) (K : nat) : st :=
+  set_v_B (fun a b => if Nat.ltb a K && Nat.ltb b nt then B_val s0 a b else v_B s0 a b)
+    (set_v_Binv (fun a b => if Nat.ltb a K && Nat.ltb b nt then fz fo 0 else v_Binv s0 a b)
+       (set_v_Btmp (fun a b => if Nat.ltb a K && Nat.ltb b nt then B_val s0 a b else v_Btmp s0 a b) s0)).
+
+Ltac rows_case a K :=
+  destruct (Nat.eqb_spec a K) as [?Ha|?Ha]; cbn [andb];
+  [subst a; replace (K <? S K)%nat with true by (symmetry; apply Nat.ltb_lt; lia); rewrite ?Nat.ltb_irrefl; cbn [andb]
+  | unfold upd2, upd1; repeat (replace (Nat.eqb a K) with false by (symmetry; apply Nat.eqb_neq; assumption)); cbn [andb];
+    destruct (Nat.ltb_spec a K) as [?H1|?H1]; destruct (Nat.ltb_spec a (S K)) as [?H2|?H2]; try reflexivity; try lia].
+
+Lemma BB2_n_on_closed s0 K :
+  (forall a b, (a < nt)%nat -> (b < nt)%nat -> v_B s0 a b = fz fo 0) -> (K < nt)%nat ->
+  BB2_n K (BB2_closed s0 K) = BB2_closed s0 (S K).
+Proof.
+  intros Hz HK. unfold BB2_n. cbv zeta. rewrite BB2_m_sweep. unfold BB2_closed. norm_state.
+  assert (HV : forall b, (b < nt)%nat ->
+            sum_from (upd2 (fun a0 b0 => if Nat.ltb a0 K && Nat.ltb b0 nt then B_val s0 a0 b0 else v_B s0 a0 b0) K K
+                           (fdiv fo (fz fo 1) (v_s_ivar s0 K)) K b) nl (tB K b s0) = B_val s0 K b).
+  { intros b Hb. unfold B_val, upd2. rewrite Nat.eqb_refl, Nat.ltb_irrefl. cbn [andb]. rewrite (Nat.eqb_sym b K).
+    destruct (Nat.eqb K b); [reflexivity|]. rewrite Hz by lia. reflexivity. }
+  f_equal; [|f_equal; [|f_equal]].
+  - extensionality a. extensionality b. norm_state. reframe (tB K b) s0. rows_case a K.
+    destruct (Nat.ltb_spec b nt) as [Hb|Hb]; [apply HV; exact Hb|].
+    unfold upd2. rewrite Nat.eqb_refl, Nat.ltb_irrefl. cbn [andb]. destruct (Nat.eqb_spec b K) as [Hbk|Hbk]; [lia|]. reflexivity.
+  - extensionality a. extensionality b. rows_case a K. destruct (b <? nt)%nat; reflexivity.
+  - extensionality a. extensionality b. norm_state. reframe (tB K b) s0. rows_case a K.
+    destruct (Nat.ltb_spec b nt) as [Hb|Hb]; [apply HV; exact Hb|reflexivity].
+Qed.
+Lemma BB2_char s0 :
+  (forall a b, (a < nt)%nat -> (b < nt)%nat -> v_B s0 a b = fz fo 0) -> BB2 s0 = BB2_closed s0 nt.
+Proof.
+  intros Hz. unfold BB2. assert (H : forall K, (K <= nt)%nat -> for_range K BB2_n s0 = BB2_closed s0 K).
+  { induction K as [|K IH]; intros HK; cbn [for_range].
+    - unfold BB2_closed. rewrite !fill_empty2 by (intros a b; reflexivity). destruct s0; reflexivity.
+    - rewrite IH by lia. apply BB2_n_on_closed; [exact Hz|lia]. }
+  apply H. lia.
 Qed.
 End Loops.
